@@ -108,3 +108,6 @@ pub use self::datetime::DateTime;
 pub use self::offset::Offset;
 pub use self::shared::{DateUtilities, OffsetUtilities, Precision, TimeUtilities};
 pub use self::time::Time;
+
+#[cfg(feature = "verif-hooks")]
+pub mod verif_hooks;
